@@ -35,8 +35,10 @@ type hostNode struct {
 var hostNodes = map[string]hostNode{
 	"chr1": {"c", 1, 3}, "chr2": {"c", 226, 128}, "blk1": {"b", 7, 0}, "blk2": {"b", 8, 17}, "fifo": {"p", 0, 0},
 	"file": {"other", 0, 0}, "gone": {"missing", 0, 0}, "chr0": {"c", 0, 5},
+	// numbers beyond 8 bits of major and 16 bits of minor (the kernel's dev_t has 12 + 20)
+	"chrbig": {"c", 511, 65539}, "blkbig": {"b", 4095, 1048575},
 }
-var hostOrder = []string{"chr1", "chr2", "blk1", "blk2", "fifo", "file", "gone", "chr0"}
+var hostOrder = []string{"chr1", "chr2", "blk1", "blk2", "fifo", "file", "gone", "chr0", "chrbig", "blkbig"}
 
 // hostAt: what lies under the path called `name` in a case with rotation `rot`: the paths keep their names from
 // case to case while the nodes behind them change (so nothing remembered about a path from an earlier Apply in
